@@ -25,6 +25,10 @@
     `freshL N n`              [N, N+1, …, N+n-1] — what `freshVars n` draws at counter N
 
   Fuel: `exec … = some res` says the run finished within the fuel (also the inner fuel of `unify`).
+
+  Not covered: encodings outside `WF` (a `*partial` over a compound/partial prefix compiles to the
+  `unsupported` instruction), heads that are not `CallableHead` (list cells as clause heads; (A)
+  itself applies to any argument list), and progress (that enough fuel exists).
 -/
 import PrologVerif.Proofs.ActivationLemmas
 namespace PrologVerif.Activation
@@ -90,6 +94,35 @@ theorem head_is_mgu (hargs : RepList) (c0 : CState) (hwf : WFs hargs = true)
   rcases this with ⟨N', hN, hres, hf⟩ | ⟨fuel', env', N', hfu, hx, hs⟩
   · exact Or.inl ⟨N', hN, hres, fun ⟨θ, hs, hu⟩ => hf θ hs hu⟩
   · exact Or.inr ⟨fuel', env', N', hfu, hs.le, hx, hs.iff, hs.det, hs.below⟩
+
+/-- (A) in general position: further argument registers `extra` behind the ones the head code
+    consumes and an arbitrary `astack` are left untouched (this is how the theorem applies to the
+    sub-patterns of a compound, which run with the outer arguments saved on `astack`) -/
+theorem head_is_mgu_general (hargs : RepList) (c0 : CState) (hwf : WFs hargs = true)
+    (vars : List Nat) (ρ : Nat → Nat) (hρ : Renames (compileHeadArgs hargs c0).vars vars ρ)
+    (fuel : Nat) (rest : List Op) (k : Cont) (args extra : List Term) (astack : List Frame)
+    (env : Env) (cp : Nat) (m : MS) (res : Pr × MS)
+    (hlen : args.length = hargs.length)
+    (hvars : ∀ v ∈ vars, v < m.user.nextVar)
+    (hargsB : ∀ a ∈ args, TBelow m.user.nextVar a)
+    (henv : SolBelow m.user.nextVar env)
+    (hrun : exec fuel (headCode hargs c0 ++ rest) vars k (args ++ extra) astack env cp m = some res) :
+    (∃ N', m.user.nextVar ≤ N' ∧ res = (failP, bump m N') ∧
+      ¬ ∃ θ, Sol env θ ∧ UnifiesL θ args ((Rep.absArgs hargs).toList.map (Term.rename ρ))) ∨
+    (∃ fuel' env' N', fuel' ≤ fuel ∧
+      exec fuel' rest vars k extra astack env' cp (bump m N') = some res ∧
+      MGUStep m.user.nextVar env
+        (fun θ => UnifiesL θ args ((Rep.absArgs hargs).toList.map (Term.rename ρ))) N' env') := by
+  obtain ⟨_, _, _, hv, hr⟩ := headCode_spec hargs c0 hwf
+  have hP : ∀ p ∈ (Rep.absArgs hargs).toList.map (Term.rename ρ), TBelow m.user.nextVar p := by
+    intro p hp
+    obtain ⟨t, ht, rfl⟩ := List.mem_map.1 hp
+    exact rename_below t (fun v hvv => hvars _ (hρ.mem (hv t ht v hvv)))
+  rcases hr vars ρ hρ fuel rest k args extra astack env cp m res
+      (by simp [hlen, absArgs_len]) hargsB hP henv hrun with
+    ⟨N', hN, hres, hf⟩ | ⟨fuel', env', N', hfu, hx, hs⟩
+  · exact Or.inl ⟨N', hN, hres, fun ⟨θ, hs, hu⟩ => hf θ hs hu⟩
+  · exact Or.inr ⟨fuel', env', N', hfu, hx, hs⟩
 
 /-- the renamed head arguments only mention activation variables -/
 theorem head_renamed_vars (hargs : RepList) (c0 : CState) (hwf : WFs hargs = true)
